@@ -405,7 +405,11 @@ def run_invalid(case):
                 must_raise = True
             else:
                 sid = "no_such_setting"
-                if a > 0:
+                near = ["dod_50", "bus_7", "sum_12", "bms_1", "47510", "mode_3", "modbus", "modbus-", "Modbus-47510",
+                        " modbus-47510", "modbus_x1", "eco_mode_5", "m1", "0", ""]
+                if a > 0 and a % 3 == 2:
+                    sid = near[(a // 3) % len(near)]   # ids that LOOK like a raw-register or a known id but are not
+                elif a > 0:
                     only_sensors = [x.id_ for x in inv.sensors() if x.id_ not in {y.id_ for y in inv.settings()}
                                     and type(x).__name__ in ("Voltage", "Current", "Integer", "Power", "Temp", "Frequency")]
                     if only_sensors:
